@@ -130,6 +130,7 @@ package dials
 //@         && cbAnnounced == ite(isCfgEv(ev), cfgEv(ev).serial, old(cbAnnounced)))
 
 //@ func dials.(*Dials).submitEventBlocking(d, ctx, ev) (ok)
+//@   flag blocking
 //@   props C08
 //@   safety C08
 //@   flag ctx_guarded
@@ -212,7 +213,7 @@ package dials
 //@        sent[d.updatesChan] == old(sent)[d.updatesChan] + 1
 //@        && sentlog_Ref[d.updatesChan][old(sent)[d.updatesChan]] == nv
 //@        && senttime[d.updatesChan][old(sent)[d.updatesChan]] > storetime[stored(d)]
-//@   ensures C07_reply_once: watchTab.installed != nil ==> sent[watchTab.installed] == 1
+//@   ensures C04_C07_reply_once: watchTab.installed != nil ==> sent[watchTab.installed] == 1
 //@        && sentlog_Iface[watchTab.installed][0] == ite(nv != nil, nil, theErr(old(rec_compose_cnt), old(vlogLen)))
 //@   ensures C07_reply_after_store: nv != nil && watchTab.installed != nil ==> senttime[watchTab.installed][0] > storetime[stored(d)]
 //@   ensures C08_still_open: (d.cbch != nil ==> !closed[d.cbch]) && (d.updatesChan != nil ==> !closed[d.updatesChan])
@@ -255,6 +256,7 @@ package dials
 //@   ensures C09_response_err: !enabled ==> respOf(ve.resp).err == vlogErr[old(vlogLen)] && respOf(ve.resp).err != nil && respOf(ve.resp).v == nil
 
 //@ func dials.(*Dials).EnableVerification(d, ctx) (cfg, tok, err)
+//@   flag blocking
 //@   props C09 C08
 //@   safety C08
 //@   flag record enableVerification
@@ -286,7 +288,7 @@ package dials
 //@   loop 0:
 //@     invariant wfDials(d) && chanOpen(d.cbch) && chanOpen(d.updatesChan) && d.cbch != d.updatesChan
 //@     invariant C06_announced_le_stored: cbAnnounced <= stored(d).serial
-//@     invariant C09_skip_only_when_delayed: skipVerify ==> d.params.DelayInitialVerification
+//@     invariant C04_C09_skip_only_when_delayed: skipVerify ==> d.params.DelayInitialVerification
 //@     iter_ensures C09_source_error_delivered_iff: isType(watchTab, "*dials.watchErrorReport") ==>
 //@          ((rec_submitEvent_cnt == old(rec_submitEvent_cnt) + 1)
 //@            <==> !(old(skipVerify) && d.params.CallGlobalCallbacksAfterVerificationEnabled))
@@ -319,6 +321,7 @@ package dials
 // ---------------------------------------------------------------------------------------------
 
 //@ func dials.(*Dials).RegisterCallback(d, ctx, serial, cb) (unreg)
+//@   flag blocking
 //@   props C06 C08
 //@   safety C08
 //@   requires d != nil && ctx != nil
@@ -328,6 +331,7 @@ package dials
 //@   ensures C06_registration_queued: unreg != nil ==> d.cbch != nil && sent[d.cbch] == old(sent)[d.cbch] + 1
 
 //@ func dials.(*userCallbackUnregisterToken).unregister(u, ctx) (ok)
+//@   flag blocking
 //@   props C06 C08
 //@   safety C08
 //@   flag ctx_guarded
@@ -341,6 +345,7 @@ package dials
 // ---------------------------------------------------------------------------------------------
 
 //@ func dials.(*watchArgs).ReportNewValue(w, ctx, val) (err)
+//@   flag blocking
 //@   props C07 C08
 //@   safety C08
 //@   flag ctx_guarded
@@ -355,6 +360,7 @@ package dials
 //@   ensures err != nil ==> sent == old(sent)
 
 //@ func dials.(*watchArgs).BlockingReportNewValue(w, ctx, val) (err)
+//@   flag blocking
 //@   props C07 C08
 //@   safety C08
 //@   flag ctx_guarded
@@ -373,6 +379,7 @@ package dials
 //@   ensures C07_error_is_reported: err != nil || sent[w.c] == old(sent)[w.c] + 1
 
 //@ func dials.(*watchArgs).Done(w, ctx)
+//@   flag blocking
 //@   props C08
 //@   safety C08
 //@   flag ctx_guarded
@@ -382,6 +389,7 @@ package dials
 //@   modifies sent, sentlog_Iface, senttime, evclock, recvd
 
 //@ func dials.(*watchArgs).ReportError(w, ctx, err) (rerr)
+//@   flag blocking
 //@   props C08
 //@   safety C08
 //@   flag ctx_guarded
@@ -413,8 +421,19 @@ package dials
 //@     invariant C06_delivered_bound: forall k int :: 0 <= k && k < len(newCfgCBs) ==> hBound(newCfgCBs[k], lastSerial)
 //@     invariant C06_unregistered_are_gone: forall k int :: 0 <= k && k < len(newCfgCBs) ==> !unregistered[newCfgCBs[k]]
 //@     invariant cbm != nil && cbm.p != nil
+//@     iter_ensures C06_config_event_reaches_every_live_callback: isCfgEv(ev) ==> newCfgCBs == old(newCfgCBs)
+//@          && (forall k int :: 0 <= k && k < len(newCfgCBs) && newCfgCBs[k].minSerial < cfgEv(ev).serial ==> delivered[newCfgCBs[k]] == cfgEv(ev).serial)
+//@     iter_ensures C06_registration_appends_the_handle: isRegEv(ev) ==> len(newCfgCBs) == len(old(newCfgCBs)) + 1
+//@          && newCfgCBs[len(old(newCfgCBs))] == regEv(ev).handle
+//@          && (forall k int :: 0 <= k && k < len(old(newCfgCBs)) ==> newCfgCBs[k] == old(newCfgCBs[k]))
+//@     iter_ensures C06_unregister_keeps_every_other_callback: isUnregEv(ev) ==>
+//@          (forall k int :: 0 <= k && k < len(old(newCfgCBs)) && old(newCfgCBs[k]) != unregEv(ev).handle ==>
+//@             (exists a int :: 0 <= a && a < len(newCfgCBs) && newCfgCBs[a] == old(newCfgCBs[k])))
+//@     iter_ensures C06_error_event_changes_no_registration: isErrEv(ev) ==> newCfgCBs == old(newCfgCBs) && delivered == old(delivered)
 //@   loop 1:
 //@     invariant C06_visited_delivered: forall k int :: 0 <= k && k < rangeidx && k < len(newCfgCBs) ==> hBound(newCfgCBs[k], e.serial)
+//@     invariant C06_no_live_callback_skipped: forall k int :: 0 <= k && k < rangeidx && k < len(newCfgCBs) && newCfgCBs[k].minSerial < e.serial ==>
+//@          delivered[newCfgCBs[k]] == e.serial
 //@     invariant C06_unvisited_untouched: forall k int :: rangeidx <= k && k < len(newCfgCBs) ==> hBoundStrict(newCfgCBs[k], e.serial)
 //@   loop 2:
 //@     invariant C06_rebuild_excludes_handle: forall a int :: 0 <= a && a < len(removed) ==> removed[a] != e.handle
@@ -427,6 +446,7 @@ package dials
 //@     invariant C06_rebuild_keeps_others: forall j int :: 0 <= j && j < rangeidx && j < len(newCfgCBs) && newCfgCBs[j] != e.handle ==>
 //@          (exists a int :: 0 <= a && a < len(removed) && removed[a] == newCfgCBs[j])
 //@     invariant len(removed) <= rangeidx && removed.arr != newCfgCBs.arr
+//@     invariant C06_rebuild_reads_the_same_list: forall k int :: 0 <= k && k < len(newCfgCBs) ==> newCfgCBs[k] == atloop(0, newCfgCBs[k])
 //@     invariant forall k int :: 0 <= k && k < len(newCfgCBs) ==>
 //@          newCfgCBs[k] != nil && newCfgCBs[k].cb != nil && registeredEver[newCfgCBs[k]]
 //@          && hBound(newCfgCBs[k], lastSerial) && !unregistered[newCfgCBs[k]]
@@ -505,15 +525,18 @@ package dials
 //@   modifies atomicval, hist, storetime, evclock, chcap, sent, recvd, closed, vlogLen, vlogCfg, vlogErr, vlogTime,
 //@            rec_compose, rec_sourceValue, rec_watch, ?sourcewrap.Blank.t, ?sourcewrap.Blank.wa, ?sourcewrap.Blank.watchCtx
 //@   loop 0:
-//@     invariant C18_watchers_so_far_are_watched: forall k int :: 0 <= k && k < rangeidx && k < len(sources) && isWatcherSrc(sources[k]) ==>
-//@          (exists j int :: old(rec_watch_cnt) <= j && j < rec_watch_cnt && rec_watch_arg0[j] == sources[k])
+//@     invariant C05_C18_watchers_so_far_are_watched: forall k int :: 0 <= k && k < rangeidx && k < len(sources) && isWatcherSrc(sources[k]) ==>
+//@          (exists j int :: old(rec_watch_cnt) <= j && j < rec_watch_cnt && rec_watch_arg0[j] == sources[k]
+//@             && isType(rec_watch_arg3[j], "*dials.watchArgs") && fresh(pay(rec_watch_arg3[j])) && allocated(pay(rec_watch_arg3[j]))
+//@             && as(pay(rec_watch_arg3[j]), "*watchArgs").s == sources[k] && as(pay(rec_watch_arg3[j]), "*watchArgs").c == watcherChan)
 //@     invariant rec_watch_cnt >= old(rec_watch_cnt)
 //@     invariant C09_no_verify_while_reading_sources: vlogLen == old(vlogLen) && rec_compose_cnt == old(rec_compose_cnt)
 //@     invariant chanOpen(watcherChan)
 //@   at call d.value.Store:
 //@     assume rely_fresh_history: forall v Ref :: !hist[&d.value][v]
-//@   ensures C18_every_watcher_source_is_watched: err == nil ==> (forall k int :: 0 <= k && k < len(sources) && isWatcherSrc(sources[k]) ==>
-//@        (exists j int :: old(rec_watch_cnt) <= j && j < rec_watch_cnt && rec_watch_arg0[j] == sources[k]))
+//@   ensures C05_C18_every_watcher_source_reports_as_itself: err == nil ==> (forall k int :: 0 <= k && k < len(sources) && isWatcherSrc(sources[k]) ==>
+//@        (exists j int :: old(rec_watch_cnt) <= j && j < rec_watch_cnt && rec_watch_arg0[j] == sources[k]
+//@           && isType(rec_watch_arg3[j], "*dials.watchArgs") && as(pay(rec_watch_arg3[j]), "*watchArgs").s == sources[k]))
 //@   ensures C04_error_returns_no_dials: err != nil ==> d == nil
 //@   ensures C04_success_returns_dials: err == nil ==> d != nil && fresh(d) && wfDials(d)
 //@   ensures C05_one_compose: err == nil ==> rec_compose_cnt == old(rec_compose_cnt) + 1
@@ -526,3 +549,28 @@ package dials
 //@        && stored(d).cfg == pay(cmpRes(old(rec_compose_cnt))) && hist[&d.value][stored(d)]
 //@   ensures C05_events_chan: err == nil ==> chanOpen(d.updatesChan) && chcap[d.updatesChan] == 1 && sent[d.updatesChan] == 0
 //@   ensures C08_callback_chan_iff_watching: err == nil ==> ((d.cbch != nil) <==> (d.monCtl != nil))
+
+// ---------------------------------------------------------------------------------------------
+// C01: the overlay walk.  Base fields (index i) and pointerified overlay fields (index j) are walked in
+// parallel; j must always be the number of retained base fields before i, for every struct type.
+// ---------------------------------------------------------------------------------------------
+
+//@ func dials.(*overlayer).overlayField(o, base, overlay) (err)
+//@   flag unproved
+//@   requires valid(base) && valid(overlay)
+
+//@ func dials.(*overlayer).overlayStruct(o, base, overlay) (err)
+//@   props C01
+//@   safety C16
+//@   requires o != nil && valid(base) && valid(overlay)
+//@   requires kind(vtype(base)) == Struct && kind(vtype(overlay)) == Struct
+//@   requires C01_overlay_is_pointerified_base: numField(vtype(overlay)) == retained(vtype(base), numField(vtype(base)))
+//@   requires C01_overlay_names: forall k int :: {fName(vtype(base), k)} 0 <= k && k < numField(vtype(base)) && keeps(vtype(base), k) ==>
+//@        fName(vtype(overlay), retained(vtype(base), k)) == fName(vtype(base), k)
+//@   loop 0:
+//@     invariant 0 <= i && i <= numField(vtype(base))
+//@     invariant C01_no_drift: j == retained(vtype(base), i)
+//@   at call o.overlayField:
+//@     assert C01_field_pairing: keeps(vtype(base), i) && j == retained(vtype(base), i)
+//@          && fName(vtype(overlay), j) == fName(vtype(base), i)
+//@          && arg1 == vField(base, i) && arg2 == vField(overlay, j)
